@@ -538,4 +538,6 @@ def run(ck, prog):
     rule_r8(ck, prog)
     c08.rule_r7(ck, prog, setters=('sdk::metrics::ObserverResultT::Observe',))
     c06.build_metrics_rules(ck, prog, rule4=None)
+    ck.doc('C06.R9', '(shared rule, see C06) folding collection intervals into one map accumulates (merge with the found entry, never overwrite it)', 2)
+    c06.rule_r9(ck, prog)
     return {}
